@@ -63,11 +63,17 @@ pub fn run(tier: &str, seed: u64, out: &mut Out) {
     for gi in 0..n_groups {
         let k = 2 + (gi % 5); // 2..6 files
         let mut g = gen_group(&mut rng, k, 2, false);
+        if gi % 3 == 1 {
+            g.scripts.clear();
+        }
         // several data fields per file: binding-map key order is part of the output
         for f in g.files.iter_mut() {
             f.1.push_str("<v a=\"{{zz+aa+mm}}\" b=\"{{bb}}{{yy}}\">{{kk}}{{aa}}</v>");
+            // names that only differ in letter case, or that collate differently under other orders
+            f.1.push_str("<v c=\"{{userName}}{{username}}{{UserName}}{{USERNAME}}\" d=\"{{itemID}}{{itemId}}{{item_id}}{{Z}}{{a1}}{{a10}}{{a2}}{{_x}}{{$y}}\"/>");
         }
-        if g.scripts.is_empty() {
+        // a third of the groups has no external script at all (the script runtime then depends on inline wxs only)
+        if g.scripts.is_empty() && gi % 3 != 1 {
             g.scripts.push(("s/z".into(), "exports.z = 1".into()));
             g.scripts.push(("s/a".into(), "exports.a = 1".into()));
             g.scripts.push(("b".into(), "exports.b = 1".into()));
